@@ -20,7 +20,7 @@ m = json.load(open(sys.argv[1]))
 out = []
 for p, t in m.get('caught_by', {}).items():
     tl = t.lower()
-    if tl.startswith('silent') or tl.startswith('not caught') or tl.startswith('not '):
+    if tl.startswith('silent') or tl.startswith('not caught') or tl.startswith('not ') or tl.startswith('analysis broken'):
         continue
     out.append(p)
 print(' '.join(out))
